@@ -3,6 +3,8 @@ import itertools
 from . import core, coregen, coretie, programs
 
 PRELUDE = [
+    ('asg', 'x', 'int', ('int', 10)),
+    ('asg', 'bump', None, ('fn', [('d', 'int')], 'int', [('mod', 'x', ('bin', '+', ('var', 'x'), ('var', 'd'))), ('print', ('var', 'd')), ('ret', ('var', 'd'))])),
     ('asg', 'log', None, ('fn', [('k', 'int')], 'int', [('print', ('var', 'k')), ('ret', ('var', 'k'))])),
     ('asg', 'logb', None, ('fn', [('k', 'int'), ('b', 'bool')], 'bool', [('print', ('var', 'k')), ('ret', ('var', 'b'))])),
     ('asg', 'zero', None, ('fn', [], 'int', [('print', ('str', 'zero')), ('ret', ('int', 0))])),
@@ -29,10 +31,18 @@ class Trees:
 
 
 def shapes_int(depth):
-    """all int expression shapes (leaves are placeholders 'I'/'B0'/'B1')"""
+    """all int expression shapes (leaves are placeholders 'I'/'B0'/'B1'; 'X' = the variable x, 'M' = a call that
+    modifies x: a later sibling must not disturb the value already read)"""
     yield 'I'
     if depth == 0:
         return
+    if depth == 1:
+        for op in ('+', '-', '*'):
+            yield ('bin', op, 'X', 'M')
+            yield ('bin', op, 'M', 'X')
+            yield ('bin', op, 'X', ('bin', '+', 'M', 'X'))
+        yield ('two', 'X', 'M')
+        yield ('pick', 'X', 'M', 'X', 'M')
     subs = list(shapes_int(depth - 1))
     for op in ('+', '*', '-'):
         for a in subs:
@@ -54,6 +64,12 @@ def shapes_bool(depth):
     if depth == 0:
         return
     subs = list(shapes_bool(depth - 1))
+    # a constant on the right must not make the left operand's side effect disappear
+    for a in subs[:6]:
+        yield ('and', a, 'LF')
+        yield ('or', a, 'LT')
+        yield ('and', a, 'LT')
+        yield ('or', a, 'LF')
     isubs = list(shapes_int(min(depth - 1, 1)))
     for op in ('and', 'or'):
         for a in subs:
@@ -74,6 +90,15 @@ def instantiate(shape, t):
         return t.leaf_b(False)
     if shape == 'B1':
         return t.leaf_b(True)
+    if shape == 'X':
+        return ('var', 'x')
+    if shape == 'M':
+        t.k += 1
+        return ('call', ('var', 'bump'), [('int', t.k)])
+    if shape == 'LF':
+        return ('bool', False)
+    if shape == 'LT':
+        return ('bool', True)
     k = shape[0]
     if k == 'bin':
         a = instantiate(shape[2], t)
